@@ -148,6 +148,8 @@ func carriers() []carrierFn {
 		{"slice-map", anyV, viaCarrier(carrier.SliceMap)},
 		{"map-25-entries", anyV, viaCarrier(carrier.MapLarge)},
 		{"url-parameter-151-of-200", strEnc, viaCarrier(carrier.UrlMany)},
+		{"url-parameter-given-twice", strEnc, viaCarrier(carrier.UrlTwice)},
+		{"url-rule-object-used-twice", strEnc, viaCarrier(carrier.UrlRMReused)},
 		{"struct-tag-field-70", func(v reflect.Value) bool { return true }, nil}, // filled below (needs TagOK)
 		{"url-single-raw", strV, u(func(v string) string { return "http://h/p?k=" + v })},
 		{"url-first-raw", strV, u(func(v string) string { return "http://h/p?k=" + v + "&a=1&z=zz" })},
@@ -355,6 +357,9 @@ func run(c *runner.Ctx) {
 			for _, car := range cars {
 				if !car.ok(v.v) || !carrier.Supports(carrier.Kind(car.name), v.v) && (car.name == "struct-rm") {
 					continue
+				}
+				if car.name == "url-parameter-given-twice" && (strings.Contains(rl.text, "required") || ref != nil && strings.Contains(ref.err, "is not exist")) {
+					continue // the first, empty occurrence is an empty value of its own: required (and an unknown rule name) is reported for it too
 				}
 				var err error
 				pan, msg, site := runner.Guard(func() { err = car.run(v.v, rl.text) })
